@@ -70,6 +70,7 @@ class RenderContext:
         loop_iteration_carry: int = 1,
         local_namespace_carry: int = 0,
         render_globals: Mapping[str, object] | None = None,
+        counters: dict[str, int] | None = None,
     ) -> None:
         self.template = template
         self.globals = global_data if global_data is not None else {}
@@ -84,7 +85,7 @@ class RenderContext:
         self.local_namespace_carry = local_namespace_carry
 
         self.locals: dict[str, object] = {}
-        self.counters: dict[str, int] = {}
+        self.counters: dict[str, int] = counters if counters is not None else {}
         self.scope = ReadOnlyChainMap(
             self.locals,
             self.globals,
@@ -391,10 +392,11 @@ class RenderContext:
                 loop_iteration_carry=loop_iteration_carry,
                 local_namespace_carry=self.get_size_of_locals(),
                 render_globals=self.render_globals,
+                counters=self.counters,
             )
-            # This might need to be generalized so the caller can specify which
-            # tag namespaces need to be copied.
-            ctx.tag_namespace["extends"] = self.tag_namespace["extends"]
+            # A block is part of the template it is rendered in. It sees the same
+            # macros, cycles, counters and block stacks as the text around it.
+            ctx.tag_namespace = self.tag_namespace
         else:
             # An isolated scope sees global data and its own arguments, not the
             # arguments of an enclosing `render` or `call`.
